@@ -533,4 +533,60 @@ theorem close_step_count (s : St) (exc : Bool) (f : Nat) :
   refine ⟨?_, hp⟩
   simpa [settledIds, pending] using hm
 
+/-! ### runs with unreported arrivals (`XOp.arrive`, added after the missed seeded change C13-2) -/
+
+theorem arrive_mv (s : St) (b : Bytes) : Mv s (arrive s b) := by
+  unfold arrive
+  split
+  · exact Mv.refl s
+  · exact ⟨rfl, fun _ => rfl⟩
+
+theorem stepX_led (s : St) (gp : GoodP s) (op : XOp) :
+    Led { s with out := [] } (stepX R s op).1 ∧ (stepX R s op).2.evs = (stepX R s op).1.out := by
+  cases op with
+  | op o => exact step_led R s gp o
+  | arrive b =>
+    have g : Good { s with out := [] } := by
+      intro f
+      have := gp f
+      simpa [Good, cnt, settledIds, pending] using this
+    refine ⟨(arrive_mv { s with out := [] } b).led g, ?_⟩
+    simp only [stepX, arrive]
+    split <;> rfl
+
+/-- `run_count` for runs in which bytes may reach the transport without the handler running -/
+theorem runX_count : ∀ (ops : List XOp) (s : St), GoodP s →
+    GoodP (runX R s ops).1 ∧ s.nextId ≤ (runX R s ops).1.nextId ∧
+    ∀ f, (settledIds (allEvs (runX R s ops).2)).count f ≤ (if f < s.nextId then (pending s).count f else 1) := by
+  intro ops
+  induction ops with
+  | nil =>
+    intro s gp
+    refine ⟨gp, Nat.le_refl _, fun f => ?_⟩
+    simp [runX, allEvs, settledIds]
+  | cons op ops ih =>
+    intro s gp
+    obtain ⟨⟨g1, hn, hold⟩, hev⟩ := stepX_led R s gp op
+    obtain ⟨gp2, hn2, hc2⟩ := ih (stepX R s op).1 g1.goodP
+    simp only [runX]
+    refine ⟨gp2, Nat.le_trans hn hn2, fun f => ?_⟩
+    rw [allEvs_cons, settledIds_append, List.count_append, hev]
+    have a := hc2 f
+    have b := g1 f
+    unfold cnt at b
+    by_cases h1 : f < s.nextId
+    · have c := hold f h1
+      have h2 : f < (stepX R s op).1.nextId := Nat.lt_of_lt_of_le h1 hn
+      rw [if_pos h2] at a
+      rw [if_pos h1]
+      simp only [cnt, settledIds, List.count_nil, Nat.zero_add] at c
+      change (settledIds (stepX R s op).1.out).count f + (pending (stepX R s op).1).count f ≤ (pending s).count f at c
+      omega
+    · rw [if_neg h1]
+      by_cases h2 : f < (stepX R s op).1.nextId
+      · rw [if_pos h2] at a; omega
+      · rw [if_neg h2] at a
+        have := b.2 (by omega)
+        omega
+
 end TornadoModel.C13
